@@ -29,6 +29,8 @@ def mkind(m):
     if type(m) is OrPooling:
         return f"MPool {m.kernel_size} {m.stride} {m.padding}"
     if type(m) is torch.nn.Flatten:
+        if (m.start_dim, m.end_dim) != (1, -1):
+            return f'(MForeign "Flatten({m.start_dim},{m.end_dim})")'     # not the flatten the emitters implement
         return "MFlatten"
     if type(m) is GroupSum:
         return f"MGroupSum {m.k}"
@@ -105,6 +107,14 @@ def catalogue(ck):
     add("conv-after-dense", lambda: S(D(4, 9), C(3, 1, 2), F(), G(1)))
     add("pool-after-dense", lambda: S(D(4, 8), P(2, 2), G(1)))
     add("only-flatten-gs", lambda: S(F(), G(1)))
+    # a Flatten that keeps some axes is not the module the emitters implement (found by an independent review: it was compiled as a full flatten)
+    add("flatten-start2-gs", lambda: S(C(4, 1, 2), F(start_dim=2), G(3)))
+    add("flatten-start0", lambda: S(C(3, 1, 2), F(0), G(2)))
+    add("flatten-1-2", lambda: S(C((3, 4), 1, 2), F(1, 2), G(3)))
+    add("dense-flatten-start2", lambda: S(F(start_dim=2), D(4, 6), G(2)))
+    # the same module objects at several positions: every application must be compiled
+    add("shared-dense", lambda: (lambda d: S(d, d, G(2)))(D(4, 4)))
+    add("shared-pool", lambda: (lambda p_: S(C(5, 1, 2), p_, C(3, 2, 2, rf=1), p_, F(), G(2)))(P(2, 1, 0)))
     add("empty", lambda: S())
     add("identity-only", lambda: S(I(), I()))
     return cases
